@@ -81,11 +81,15 @@ def run_case(case):
     pos_of_obj = {id(c): i for i, c in enumerate(bb.conditionals.values())}
     pos_of_key = {k: i for i, k in enumerate(klist)}
     real = {}
+    debug = rng.random() < 0.05         # verdicts must not depend on the log level
+    if debug:
+        bump('cases_with_debug_logging')
     for weakly in (False, True):
         mode = 'extended' if weakly else 'strict'
         try:
-            po, so = consistency(bb, 'z3', weakly)
-            pk, sk = consistency_indices(bb, 'z3', weakly)
+            with impl.debug_logging(debug):
+                po, so = consistency(bb, 'z3', weakly)
+                pk, sk = consistency_indices(bb, 'z3', weakly)
         except Exception as e:
             viol('consistency:%s:exception:%s' % (mode, type(e).__name__), error=str(e)[:200])
             continue
